@@ -96,6 +96,10 @@ inductive Ev
   | arrive (conn : Nat) (tag : Option Nat) (data : Bytes)
   | devclose (conn : Nat)
   | dopoll (m : Nat)                    -- the poll thread calls doPoll of module m (scenario with the real poll thread)
+  | more (c : Nat) (n : Nat)            -- getFullReply (byte devices, replies of variable length) calls readBytes(n)
+  | isend (c : Nat) (conn : Nat) (n : Nat) (data : Bytes)   -- a send made by checkHWIdent (identification on connect)
+  | idend (c : Nat) (ok : Bool)         -- checkHWIdent (with an identification configured) returned / raised
+  | busy (c : Nat)                      -- check_connection: another thread is connecting right now (accessLock not free)
 deriving DecidableEq, Repr
 
 structure TEv where
@@ -240,7 +244,8 @@ def stepCaller (s : State) (t : Nat) (c : Nat) (e : Ev) : Option State :=
       (if s.lastAttempt + s.cfg.interval ≤ t' then some ({ s with lastAttempt := t' }.setC c { k with pc := .rcheck })
        else some (s.setC c (failTo k)))
     else none
-  | .chkNow, .acq _ => doAcqI s c k       -- connected by another thread while waiting for accessLock: check passes
+  | .chkNow, .acq _ => doAcqI s c k       -- connected by another thread in the meantime: check passes
+  | .chkNow, .busy _ => some (s.setC c (failTo k))   -- another thread is connecting right now: the call fails, it does not wait
   | .rcheck, .now _ t' =>     -- read_is_connected: not connected; the attempt is recorded
     if s.isConn = false ∧ t' = t then some ({ s with lastAttempt := t' }.setC c { k with pc := .connecting }) else none
   | .rcheck, .isconn _ v =>               -- read_is_connected returned True; its wrapper announces that, too late
@@ -348,7 +353,8 @@ def stepCaller (s : State) (t : Nat) (c : Nat) (e : Ev) : Option State :=
 /-- who performs an event (`none`: the device) -/
 def Ev.who : Ev → Option Nat
   | .call c _ _ | .chk c _ | .now c _ | .connect c _ _ | .isconn c _ | .cb c _ _ | .acq c | .rel c
-  | .slp c _ | .wake c | .flush c | .send c _ _ _ | .recv c _ | .hclose c | .ret c _ => some c
+  | .slp c _ | .wake c | .flush c | .send c _ _ _ | .recv c _ | .hclose c | .ret c _
+  | .more c _ | .isend c _ _ _ | .idend c _ | .busy c => some c
   | .arrive _ _ _ | .devclose _ | .dopoll _ => none
 
 /-- one time-stamped event; the clock never runs backwards -/
